@@ -342,7 +342,33 @@ def run_two_clients(gen):
     return n, None
 
 
+def run_initial_error(gen):
+    """The installation is already in trouble when the client connects (an AC reports an error code, and the console
+    answers the error-information request the client sends in the middle of its handshake): after init() the getters
+    show code and text like after any other frame, and a repeated text changes nothing."""
+    inst = console.default_installation(gen, 2, (2, 1))
+    st = console.default_state(inst)
+    st["ac"][1].update({"error": 5})
+    st["error"][1] = "ER: 05"
+    w = apiworld.ApiWorld(gen, inst, st, auto=True)
+    r = w.init_now(0.0)
+    if not (r and r[1] is True):
+        return 1, (f"at{gen}:initial-error:init", f"at{gen}: init() against an installation with an AC in error: {r}")
+    w.loop.settle()
+    msg = check_view(w, f"at{gen} after init() against an AC that was already in error")
+    if msg:
+        return 1, (f"at{gen}:initial-error:view", msg)
+    push(w, w.console.error_frame(1))
+    push(w, w.console.ac_status_frame())
+    msg = check_view(w, f"at{gen} AC in error at connect, then the same error text and status again")
+    if msg:
+        return 3, (f"at{gen}:initial-error:repeat", msg)
+    return 3, None
+
+
 def replay_input(rp):
+    if rp["what"] == "initial-error":
+        return (run_initial_error(rp["gen"])[1] or (None, None))[1]
     if rp["what"] == "two-clients":
         return (run_two_clients(rp["gen"])[1] or (None, None))[1]
     if rp["what"] == "zoneless":
@@ -384,6 +410,11 @@ def run(tier, seed, part=None):
             outcomes.add(snap if isinstance(snap, str) else "violation")
             if sig:
                 chk.violation(sig, msg, {"kind": "input", "module": "pvmc.props.c10", "what": "history", "gen": gen, "seq": list(s), "batch": bool(mode)})
+        ne, viol = run_initial_error(gen)
+        total += ne
+        chk.parts.append({"scenario": f"at{gen}/ac-in-error-at-connect", "frames": ne})
+        if viol:
+            chk.violation(viol[0], viol[1], {"kind": "input", "module": "pvmc.props.c10", "what": "initial-error", "gen": gen})
         nt, viol = run_two_clients(gen)
         total += nt
         chk.parts.append({"scenario": f"at{gen}/two-clients-side-by-side", "frames": nt})
